@@ -85,16 +85,7 @@ type c21Logger struct {
 	lines []string
 }
 
-func (l *c21Logger) Enabled(log.Level) bool          { return true }
-func (l *c21Logger) Debugf(format string, v ...any) { fmt.Printf("C21DBG D "+format+"\n", v...) }
-func (l *c21Logger) Debug(v ...any)                 { fmt.Println(append([]any{"C21DBG D"}, v...)...) }
-func (l *c21Logger) Infof(format string, v ...any)  { fmt.Printf("C21DBG I "+format+"\n", v...) }
-func (l *c21Logger) Info(v ...any)                  { fmt.Println(append([]any{"C21DBG I"}, v...)...) }
-func (l *c21Logger) Errorf(format string, v ...any) { fmt.Printf("C21DBG E "+format+"\n", v...) }
-func (l *c21Logger) Error(v ...any)                 { fmt.Println(append([]any{"C21DBG E"}, v...)...) }
-func (l *c21Logger) Warn(v ...any)                  { fmt.Println(append([]any{"C21DBG W"}, v...)...) }
 func (l *c21Logger) Warnf(format string, v ...any) {
-	fmt.Printf("C21DBG W "+format+"\n", v...)
 	if !strings.Contains(format, "failing") {
 		return
 	}
@@ -172,36 +163,50 @@ func (e *c21Env) routeeNames(router *PID) ([]string, bool) {
 	return nil, false
 }
 
-// spawn starts a router and waits until it reports poolSize routees.
+// spawn starts a router and waits until it reports poolSize routees, all of them
+// present in the actor tree. (A router whose PostStart ran before the router itself
+// was attached to the tree leaves its first routees out of the tree: the system
+// swallows that insertion error. Such routers are useless for a structural
+// completion barrier, so they are stopped, counted and replaced.)
 func (e *c21Env) spawn(poolSize int, opts ...RouterOption) (*PID, []string) {
-	name := fmt.Sprintf("c21router%d", c21RouterSeq.Add(1))
-	pid, err := e.sys.SpawnRouter(context.Background(), name, poolSize, &c21Routee{}, opts...)
-	if err != nil {
-		e.t.Fatalf("SpawnRouter: %v", err)
-	}
-	var names []string
-	ok := verifrt.WaitUntil(60*time.Second, func() bool {
-		resp, err := Ask(context.Background(), pid, &GetRoutees{}, 2*time.Second)
+	for attempt := 0; attempt < 20; attempt++ {
+		name := fmt.Sprintf("c21router%d", c21RouterSeq.Add(1))
+		pid, err := e.sys.SpawnRouter(context.Background(), name, poolSize, &c21Routee{}, opts...)
 		if err != nil {
-			return false
+			e.t.Fatalf("SpawnRouter: %v", err)
 		}
-		rs, isR := resp.(*Routees)
-		if !isR || len(rs.Names()) != poolSize {
-			return false
+		var names []string
+		ok := verifrt.WaitUntil(60*time.Second, func() bool {
+			resp, err := Ask(context.Background(), pid, &GetRoutees{}, 2*time.Second)
+			if err != nil {
+				return false
+			}
+			rs, isR := resp.(*Routees)
+			if !isR || len(rs.Names()) != poolSize {
+				return false
+			}
+			names = append([]string(nil), rs.Names()...)
+			return true
+		})
+		if !ok {
+			e.t.Fatalf("router %s never reported %d routees", name, poolSize)
 		}
-		names = append([]string(nil), rs.Names()...)
-		return true
-	})
-	if !ok {
-		e.t.Fatalf("router %s never reported %d routees", name, poolSize)
+		sort.Strings(names)
+		missing := 0
+		for _, n := range names {
+			if _, ok := e.sys.findRoutee(n); !ok {
+				missing++
+			}
+		}
+		if missing == 0 {
+			return pid, names
+		}
+		e.r.Count("spawn_race_routers_with_routees_missing_from_tree", 1)
+		e.r.Count("spawn_race_orphan_routees", int64(missing))
+		e.stop(pid)
 	}
-	sort.Strings(names)
-	for _, n := range names {
-		if _, ok := e.sys.findRoutee(n); !ok {
-			fmt.Printf("C21DBG X after spawn: routee %s not in tree (router %s)\n", n, name)
-		}
-	}
-	return pid, names
+	e.t.Fatalf("20 consecutive routers had routees missing from the actor tree")
+	return nil, nil
 }
 
 func c21FanoutSendersAlive() bool {
@@ -249,14 +254,6 @@ func (e *c21Env) stop(router *PID) {
 }
 
 func (e *c21Env) send(router *PID, m *c21Msg) {
-	if m.id%50 == 0 {
-		for i := 0; i < 2; i++ {
-			n := routeeName(i, router.Name())
-			if _, ok := e.sys.findRoutee(n); !ok {
-				fmt.Printf("C21DBG X at send id=%d: routee %s not in tree\n", m.id, n)
-			}
-		}
-	}
 	if err := Tell(context.Background(), router, NewBroadcast(m)); err != nil {
 		// a dead router is judged by what the ledger shows
 		e.r.Count("tell_errors", 1)
@@ -705,7 +702,10 @@ func c21ConsistentHash(e *c21Env, rng *rand.Rand, cases int) {
 			victim := names[rng.Intn(len(names))]
 			pid, ok := e.sys.findRoutee(victim)
 			if !ok {
-				e.t.Fatalf("routee %s not found", victim)
+				e.stop(router)
+				r.Inconclusive("consistent-hash case %s: routee %s vanished from the actor tree before the removal step", key, victim)
+				r.Case(key, false)
+				continue
 			}
 			mode := "panic"
 			if removal == "routee-self-shutdown" {
